@@ -179,7 +179,7 @@ def histories(remat=False):
     from hypothesis import strategies as st
 
     run = st.fixed_dictionaries({"op": st.just("run"), "p": st.integers(0, 2), "k": st.integers(0, 1),
-                                 "mode": st.sampled_from(["eager", "eager", "jit", "vmap_keys", "jit_vmap_keys"]), "arg": st.sampled_from(["s1", "s1", "s1", "kw2", "pos3", "pos3", "pos5", "pos5", "kw4", "vec"])})
+                                 "mode": st.sampled_from(["eager", "eager", "jit", "vmap_keys", "jit_vmap_keys"]), "arg": st.sampled_from(["s1", "s1", "s1", "pos3", "pos3", "pos3", "pos5", "pos5", "kw2", "kw4", "vec"])})
     interfere = st.one_of(
         st.fixed_dictionaries({"op": st.just("interfere"), "kind": st.just("unseeded_site"), "n": st.integers(1, 5)}),
         st.fixed_dictionaries({"op": st.just("interfere"), "kind": st.just("unseeded_program"), "p": st.integers(0, 2)}),
@@ -190,7 +190,7 @@ def histories(remat=False):
     if remat:  # programs seed may refuse (then nothing is compared); if it accepts them the result must still be pure
         progs = st.lists(st.builds(lambda s, k: ["remat", s, k], seedir.shapes(max_leaves=2), st.sampled_from(["checkpoint", "custom_jvp"])), min_size=1, max_size=1)
     return st.fixed_dictionaries({"programs": progs, "key": st.integers(0, 2**30),
-                                  "ops": st.lists(st.one_of(run, run, interfere), min_size=6, max_size=14 if not remat else 8)})
+                                  "ops": st.lists(st.one_of(run, run, run, interfere), min_size=8, max_size=20 if not remat else 8)})
 
 
 def one_case(ctx, case):
